@@ -359,3 +359,41 @@ M('c10-sql-as-template', 'C10', [(U, "    formatted_sql = (\n        self.execut
 M('c10-literal-bypass', 'C10', [(ET, "      if 'the_string' in literal:\n        return self.StrLiteral(literal['the_string'])", "      if 'the_string' in literal:\n        return \"'%s'\" % literal['the_string']['the_string']")], 'C10-R2')
 T('c10-twin-duckdb-extra', 'C10', [(ET, "          .replace('\\n', r'\\n'))", "          .replace('\\n', r'\\n')\n          .replace('\\r', r'\\r'))")])
 T('c10-twin-standard-refactor', 'C10', [(ET, "      return '\\'%s\\'' % (literal['the_string'].replace(\"'\", \"''\"))", "      return \"'\" + literal['the_string'].replace(\"'\", \"''\") + \"'\"")])
+
+# ---------------------------------------------------------------- C02
+M('c02-no-disambiguation', 'C02', [(RT, "  if rule['head']['predicate_name'] != 'Combine':\n    DisambiguateCombineVariables(rule, names_allocator)\n", "")], 'C02-R1')
+M('c02-disambiguation-late', 'C02', [(RT, "  if rule['head']['predicate_name'] != 'Combine':\n    DisambiguateCombineVariables(rule, names_allocator)\n  s = RuleStructure(names_allocator, external_vocabulary)\n  InlinePredicateValues(rule, names_allocator)\n",
+                                      "  s = RuleStructure(names_allocator, external_vocabulary)\n  InlinePredicateValues(rule, names_allocator)\n  if rule['head']['predicate_name'] != 'Combine':\n    DisambiguateCombineVariables(rule, names_allocator)\n")], 'C02-R1')
+M('c02-combine-no-vocabulary', 'C02', [(ET, "              expression['combine'],\n              self.vocabulary,\n              is_combine=True))", "              expression['combine'],\n              {},\n              is_combine=True))")], 'C02-R2')
+M('c02-combine-not-marked', 'C02', [(ET, "              self.vocabulary,\n              is_combine=True))", "              self.vocabulary,\n              is_combine=False))")], 'C02-R2')
+M('c02-tables-full-vocabulary', 'C02', [(RT, "          sql = subquery_encoder.TranslateTable(v, self.external_vocabulary)", "          sql = subquery_encoder.TranslateTable(v, self.VarsVocabulary())")], 'C02-R2')
+M('c02-groupby-all-keys', 'C02', [(RT, "        list(set(s.select.keys()) - set(aggregated_vars)), key=str)", "        list(set(s.select.keys())), key=str)")], 'C02-R3')
+M('c02-unknown-groupby-mode', 'C02', [(DI, "  def ArrayPhrase(self):\n    return 'ARRAY[%s]'\n\n  def GroupBySpecBy(self):\n    return 'index'\n\n  def DecorateCombineRule(self, rule, var):\n    return rule\n\n\nclass ClickHouseDialect",
+                                       "  def ArrayPhrase(self):\n    return 'ARRAY[%s]'\n\n  def GroupBySpecBy(self):\n    return 'position'\n\n  def DecorateCombineRule(self, rule, var):\n    return rule\n\n\nclass ClickHouseDialect")], 'C02-R3')
+M('c02-agg-operator', 'C02', [(PA, "    if raw_operator == '+':\n      return 'Agg+'", "    if raw_operator == '+':\n      return 'AggSum'")], 'C02-R4')
+M('c02-split-drops-heritage', 'C02', [(PA, "                    },\n                    'expression_heritage': field_value['value']['aggregation']['expression_heritage']\n", "                    }\n")], 'C02-R4')
+M('c02-forward-swapped', 'C02', [(U, "    return self.program.SingleRuleSql(\n      rule, self.allocator, external_vocabulary,\n      is_combine=is_combine)", "    return self.program.SingleRuleSql(\n      rule, self.allocator, external_vocabulary)")], 'C02-R2')
+T('c02-twin-negation-max', 'C02', [(PA, "                                                  'operator': 'Min',", "                                                  'operator': 'Max',")])
+T('c02-twin-kw-forward', 'C02', [(U, "      rule, self.allocator, external_vocabulary,\n      is_combine=is_combine)", "      rule, allocator=self.allocator,\n      external_vocabulary=external_vocabulary,\n      is_combine=is_combine)")])
+
+# ---------------------------------------------------------------- C04
+M('c04-shared-rules', 'C04', [(FU, "        result.extend(self.rules_of[f])\n    return copy.deepcopy(result)", "        result.extend(self.rules_of[f])\n    return result")], 'C04-R1')
+M('c04-annotations-shared', 'C04', [(FU, "          result.append(rule)\n    return copy.deepcopy(result)", "          result.append(rule)\n    return result")], 'C04-R1')
+M('c04-key-without-values', 'C04', [(FU, "    args = ','.join('%s: %s' % (k, v) for k, v in sorted(relevant_args.items()))", "    args = ','.join('%s' % k for k, v in sorted(relevant_args.items()))")], 'C04-R2')
+M('c04-key-without-functor', 'C04', [(FU, "    result = '%s(%s)' % (functor, args)\n    return result", "    result = '(%s)' % (args)\n    return result")], 'C04-R2')
+M('c04-key-unsorted', 'C04', [(FU, "for k, v in sorted(relevant_args.items()))", "for k, v in relevant_args.items())")], 'C04-R2')
+M('c04-cache-by-name', 'C04', [(FU, "        if call_key in self.cached_calls:\n          new_predicate_name = self.cached_calls[call_key]", "        if rule_predicate_name in self.cached_calls:\n          new_predicate_name = self.cached_calls[rule_predicate_name]")], 'C04-R2')
+M('c04-make-before-args', 'C04', [(FU, "            (self.args_of[applicant] & needs_building) or\n            (set(args_map.values()) & needs_building)):", "            (self.args_of[applicant] & needs_building)):")], 'C04-R3')
+M('c04-no-structure-update', 'C04', [(FU, "    self.extended_rules.extend(rules)\n    self.UpdateStructure(name)", "    self.extended_rules.extend(rules)")], 'C04-R1')
+M('c04-bad-args-accepted', 'C04', [(FU, "    bad_args = set(args_map.keys()) - set(self.args_of[applicant])\n    if bad_args:", "    bad_args = set(args_map.keys()) - set(self.args_of[applicant])\n    if False:")], None)
+T('c04-twin-key-format', 'C04', [(FU, "    args = ','.join('%s: %s' % (k, v) for k, v in sorted(relevant_args.items()))", "    args = ';'.join('{}={}'.format(k, v) for k, v in sorted(relevant_args.items()))")])
+T('c04-twin-make-guard-split', 'C04', [(FU, """        if (new_predicate not in needs_building or
+            applicant in needs_building or
+            (self.args_of[applicant] & needs_building) or
+            (set(args_map.values()) & needs_building)):
+          continue""", """        if new_predicate not in needs_building or applicant in needs_building:
+          continue
+        if (self.args_of[applicant] & needs_building):
+          continue
+        if (set(args_map.values()) & needs_building):
+          continue""")])
